@@ -734,6 +734,22 @@ func runC04(p *core.Program, r *core.Report) {
 		ret := accessorReturnDefer(fSize)
 		c.ob("CM1", p.FuncName(fSize), "Size reports the counter", c.fpos(fSize), ret != nil && isLoadOfField(ret, "BsTree", "size"), "Size must return BsTree.size")
 	}
+	// Upsert stores or descends exactly once on every path
+	if nupsert != nil {
+		isIns := func(in ssa.Instruction) bool {
+			if call, ok := in.(ssa.CallInstruction); ok && path.StaticCallee(call) == nupsert {
+				return true
+			}
+			if st, ok := in.(*ssa.Store); ok {
+				if fa, ok := st.Addr.(*ssa.FieldAddr); ok && isFieldOf(fa, "BsTree", "root") {
+					return true
+				}
+			}
+			return false
+		}
+		mn, mx := path.MinCount(fUpsert, isIns), path.MaxCount(fUpsert, isIns)
+		c.ob("PT1", p.FuncName(fUpsert), "inserts exactly once on every path", c.fpos(fUpsert), mn == 1 && mx == 1, fmt.Sprintf("Upsert links the root or descends %d..%s times depending on the path", mn, countStr(mx)))
+	}
 	// Upsert: empty tree links the root, otherwise descends from the root with key and val
 	if nupsert != nil {
 		okU := false
